@@ -129,6 +129,9 @@ class RawPayloadDecoder(AbstractSimplePayloadDecoder):
             if value is eoo.endOfOctets:
                 break
 
+        if component is noValue:
+            raise error.PyAsn1Error('No value inside explicit tag %s' % (tagSet,))
+
         # the decoded value must be the last item yielded even if the
         # end-of-octets marker arrived after an underrun
         yield component
